@@ -47,6 +47,29 @@ func (c *Ctx) ruleNsDeref(rule string) {
 			}
 		}
 	}
+	// ... and the methods that call such a method on their own receiver (the guard moved into a helper: `r.requireLink()`)
+	for changed := true; changed; {
+		changed = false
+		for _, fn := range c.M.SortedFuncs(c.scopePkg("schema")) {
+			if !strings.HasPrefix(c.M.Key(fn), "schema.RefSchema.") || fn.Signature.Recv() == nil || linkedOnly[fn.Name()] || len(fn.Params) == 0 {
+				continue
+			}
+			for _, b := range fn.Blocks {
+				for _, in := range b.Instrs {
+					call, ok := in.(*ssa.Call)
+					if !ok || len(call.Call.Args) == 0 || call.Call.Args[0] != ssa.Value(fn.Params[0]) {
+						continue
+					}
+					g := core.StaticBody(&call.Call)
+					// called on every way through the function: in its entry block
+					if g != nil && strings.HasPrefix(c.M.Key(g), "schema.RefSchema.") && linkedOnly[g.Name()] && b == fn.Blocks[0] {
+						linkedOnly[fn.Name()] = true
+						changed = true
+					}
+				}
+			}
+		}
+	}
 	if refNamed == nil || len(linkedOnly) == 0 {
 		c.R.Unresolved(rule, "RefSchema methods that require a linked reference")
 		return
